@@ -388,6 +388,13 @@ func (state inSession) doTargetTooLow(session *session, msg *Message, rej target
 		return state
 	}
 
+	if !msg.Header.Has(tagSendingTime) {
+		if err := session.doReject(msg, RequiredTagMissing(tagSendingTime)); err != nil {
+			return handleStateError(session, err)
+		}
+		return state
+	}
+
 	sendingTime := new(FIXUTCTimestamp)
 	if err := msg.Header.GetField(tagSendingTime, sendingTime); err != nil {
 		return state.processReject(session, msg, err)
